@@ -146,6 +146,17 @@ pub fn run_one(tr: &RunTrace, opts: &RunOpts) -> RunReport {
             continue;
         }
         let cs = CONVS[conv_canon(p.op.which) as usize];
+        // under Miri an image of thousands of pixels is there for the memory-safety oracle; a
+        // second and third evaluation of it would triple the cost of the execution
+        if opts.miri {
+            let px = match &*p.input {
+                crate::model::Val::Yuv { planes, .. } => planes[0].w * planes[0].h,
+                crate::model::Val::Flt { w, h, .. } => w * h,
+            };
+            if px > 2000 {
+                continue;
+            }
+        }
         // I3b: fresh OS thread (fresh thread-local state), canonical rebuild of the input
         let (input, op) = (Arc::clone(&p.input), p.op.clone());
         let reference = std::thread::spawn(move || ref_eval(&input, &op)).join().unwrap_or_else(|_| Outcome::Panic(PanicClass::Other("reference thread died".into())));
